@@ -1,24 +1,26 @@
 """Which units / harnesses decide which property."""
 
-# unit -> Verus rlimit
+# unit -> Verus rlimit ("roughly seconds"); every function is far below it on the unchanged tree
 UNIT_RLIMIT = {'conn': 60, 'lemmas': 60, 'request': 60, 'client': 60, 'response': 60}
 
 PROPS = {
-    'C01': dict(units=['conn'], kani=[],
+    'C01': dict(units=['conn', 'lemmas', 'client'], kani=['find_first_match_1', 'find_first_match_2'],
                 title='Delivered requests depend only on the byte stream, not on how reads split it'),
-    'C02': dict(units=['conn'], kani=[],
+    'C02': dict(units=['conn', 'request'], kani=['method_try_from_exact', 'version_try_from_exact', 'method_roundtrip', 'version_roundtrip', 'find_first_match'],
                 title='Accepted requests are exactly those of the documented grammar'),
-    'C03': dict(units=['conn'], kani=[],
+    'C03': dict(units=['conn', 'request', 'client', 'response'],
+                kani=['method_try_from_exact', 'version_try_from_exact', 'find_first_match', 'uri_abs_path'],
                 title='No input makes any parsing entry point panic, hang or block'),
-    'C04': dict(units=['conn'], kani=[], title='Payload and line-length limits are enforced exactly and before buffering'),
-    'C05': dict(units=[], kani=[], title='Serialized responses are well-formed and self-delimiting'),
+    'C04': dict(units=['conn', 'lemmas', 'client'], kani=[], title='Payload and line-length limits are enforced exactly and before buffering'),
+    'C05': dict(units=['response'], kani=['status_code_raw', 'mediatype_as_str', 'header_raw_names'],
+                title='Serialized responses are well-formed and self-delimiting'),
     'C06': dict(units=['conn'], kani=[], title='Queued responses reach the stream completely, once, in order'),
-    'C07': dict(units=[], kani=[], title='A response is delivered only to the connection that sent its request'),
-    'C09': dict(units=[], kani=[], title='No client can wedge the server'),
-    'C11': dict(units=['conn'], kani=[], title='A rejected request is never delivered later'),
-    'C12': dict(units=['conn'], kani=[], title='Descriptors passed with a request are delivered once, in order'),
-    'C13': dict(units=['conn'], kani=[], title='100 Continue is sent exactly when asked for'),
-    'C14': dict(units=[], kani=[], title='One-shot request parsing agrees with the connection'),
-    'C16': dict(units=[], kani=[],
+    'C07': dict(units=['client'], kani=[], title='A response is delivered only to the connection that sent its request'),
+    'C09': dict(units=['client'], kani=[], title='No client can wedge the server'),
+    'C11': dict(units=['conn', 'lemmas', 'client'], kani=[], title='A rejected request is never delivered later'),
+    'C12': dict(units=['conn', 'lemmas'], kani=[], title='Descriptors passed with a request are delivered once, in order'),
+    'C13': dict(units=['conn', 'lemmas', 'client', 'response'], kani=[], title='100 Continue is sent exactly when asked for'),
+    'C16': dict(units=[], kani=['method_try_from_exact', 'version_try_from_exact', 'method_roundtrip', 'version_roundtrip',
+                               'status_code_raw', 'mediatype_as_str', 'mediatype_roundtrip', 'uri_abs_path'],
                 title='Token and URI functions are exact, case-sensitive and round-trip'),
 }
